@@ -1,0 +1,147 @@
+//go:build verif
+// +build verif
+
+package band
+
+import (
+	"sort"
+
+	"github.com/brocaar/lorawan"
+)
+
+// This file is only compiled with the build tag "verif". It exposes a
+// read-only deep copy of the internal tables of a Band so that external
+// verification tooling can reason about exactly the data the lookup
+// functions read. Nothing here mutates the band.
+
+// VerifDataRate is one entry of the internal data-rate map.
+type VerifDataRate struct {
+	Index    int
+	Uplink   bool
+	Downlink bool
+	DataRate DataRate
+}
+
+// VerifChannel is one internal channel including the unexported flags.
+type VerifChannel struct {
+	Frequency uint32
+	MinDR     int
+	MaxDR     int
+	Enabled   bool
+	Custom    bool
+}
+
+// VerifMaxPayloadTable is the DR -> size map of one (version, revision) key pair.
+type VerifMaxPayloadTable struct {
+	Version  string // key at the first map level (may be "latest")
+	Revision string // key at the second map level (may be "latest")
+	DRs      []int  // keys present, ascending
+	Sizes    []MaxPayloadSize
+}
+
+// VerifRX1Row is one row of the RX1 data-rate table.
+type VerifRX1Row struct {
+	UplinkDR int
+	Row      []int
+}
+
+// VerifSnapshot is a deep copy of the tables of a band.
+type VerifSnapshot struct {
+	Kind                  string // concrete type: as923, au915, cn470, cn779, eu433, eu868, in865, ism2400, kr920, ru864, us915
+	SupportsExtraChannels bool
+	CFListMinDR           int
+	CFListMaxDR           int
+	DataRates             []VerifDataRate        // ascending index
+	MaxPayloadSizes       []VerifMaxPayloadTable // ascending (version, revision)
+	RX1DataRateTable      []VerifRX1Row          // ascending uplink DR
+	UplinkChannels        []VerifChannel
+	DownlinkChannels      []VerifChannel
+	TXPowerOffsets        []int
+	// fields of the concrete types that carry them (zero otherwise)
+	HasDwellTime    bool
+	DwellTime       lorawan.DwellTime
+	FrequencyOffset int
+	NameSuffix      string
+	LatestKey       string // the value of the internal constant "latest"
+}
+
+// VerifTakeSnapshot returns the snapshot of b, false when b is not one of
+// the band implementations of this package.
+func VerifTakeSnapshot(b Band) (VerifSnapshot, bool) {
+	var s VerifSnapshot
+	var in *band
+	switch v := b.(type) {
+	case *as923Band:
+		in, s.Kind = &v.band, "as923"
+		s.HasDwellTime, s.DwellTime = true, v.dwellTime
+		s.FrequencyOffset, s.NameSuffix = v.frequencyOffset, v.nameSuffix
+	case *au915Band:
+		in, s.Kind = &v.band, "au915"
+		s.HasDwellTime, s.DwellTime = true, v.dwellTime
+	case *cn470Band:
+		in, s.Kind = &v.band, "cn470"
+	case *cn779Band:
+		in, s.Kind = &v.band, "cn779"
+	case *eu443Band:
+		in, s.Kind = &v.band, "eu433"
+	case *eu863Band:
+		in, s.Kind = &v.band, "eu868"
+	case *in865Band:
+		in, s.Kind = &v.band, "in865"
+	case *ism2400Band:
+		in, s.Kind = &v.band, "ism2400"
+	case *kr920Band:
+		in, s.Kind = &v.band, "kr920"
+	case *ru864Band:
+		in, s.Kind = &v.band, "ru864"
+	case *us902Band:
+		in, s.Kind = &v.band, "us915"
+	default:
+		return s, false
+	}
+
+	s.LatestKey = latest
+	s.SupportsExtraChannels = in.supportsExtraChannels
+	s.CFListMinDR = in.cFListMinDR
+	s.CFListMaxDR = in.cFListMaxDR
+
+	for i, d := range in.dataRates {
+		s.DataRates = append(s.DataRates, VerifDataRate{Index: i, Uplink: d.uplink, Downlink: d.downlink, DataRate: d})
+	}
+	sort.Slice(s.DataRates, func(i, j int) bool { return s.DataRates[i].Index < s.DataRates[j].Index })
+
+	for ver, revs := range in.maxPayloadSizePerDR {
+		for rev, drs := range revs {
+			t := VerifMaxPayloadTable{Version: ver, Revision: rev}
+			for dr := range drs {
+				t.DRs = append(t.DRs, dr)
+			}
+			sort.Ints(t.DRs)
+			for _, dr := range t.DRs {
+				t.Sizes = append(t.Sizes, drs[dr])
+			}
+			s.MaxPayloadSizes = append(s.MaxPayloadSizes, t)
+		}
+	}
+	sort.Slice(s.MaxPayloadSizes, func(i, j int) bool {
+		a, b := s.MaxPayloadSizes[i], s.MaxPayloadSizes[j]
+		if a.Version != b.Version {
+			return a.Version < b.Version
+		}
+		return a.Revision < b.Revision
+	})
+
+	for dr, row := range in.rx1DataRateTable {
+		s.RX1DataRateTable = append(s.RX1DataRateTable, VerifRX1Row{UplinkDR: dr, Row: append([]int(nil), row...)})
+	}
+	sort.Slice(s.RX1DataRateTable, func(i, j int) bool { return s.RX1DataRateTable[i].UplinkDR < s.RX1DataRateTable[j].UplinkDR })
+
+	for _, c := range in.uplinkChannels {
+		s.UplinkChannels = append(s.UplinkChannels, VerifChannel{c.Frequency, c.MinDR, c.MaxDR, c.enabled, c.custom})
+	}
+	for _, c := range in.downlinkChannels {
+		s.DownlinkChannels = append(s.DownlinkChannels, VerifChannel{c.Frequency, c.MinDR, c.MaxDR, c.enabled, c.custom})
+	}
+	s.TXPowerOffsets = append([]int(nil), in.txPowerOffsets...)
+	return s, true
+}
